@@ -31,7 +31,7 @@ def _pair_gas(nvel):
     ln12 = gen.f(-6 * math.log(10), 6 * math.log(10))
     ln6 = st.one_of(gen.f(-6 * math.log(10), 6 * math.log(10)), gen.f(-1, 1), st.just(0.0))
     machs = st.lists(_mach(), min_size=nvel, max_size=nvel)
-    kind = st.sampled_from(["general", "general", "general", "equal", "rest", "sonic", "mirror", "super+", "super-", "super+", "super-"])
+    kind = st.sampled_from(["general", "general", "general", "equal", "rest", "sonic", "mirror", "super+", "super-", "super+", "super-", "near", "near"])
     # supercritical pairs: Mach/Froude from just above 1 to hypersonic (log-uniform 1.05..100): with large density AND pressure ratios the Roe average
     # then lies far from both states, which is where a wrong averaging weight changes the sign of a wave-speed bound
     sup = st.one_of(gen.f(1.05, 3.0), st.builds(lambda e: float(1.05 * 10.0 ** e), gen.f(0.0, 2.0)))
@@ -54,6 +54,11 @@ def _expand_gas(p, wavespeed):
     elif kind == "mirror":
         rhoR, pR = rhoL, pL
         mR = [-mL[0]] + mL[1:]
+    elif kind == "near":
+        # nearly but not exactly equal states (relative differences 1e-9 .. 1e-5): shortcuts for "uniform flow" must not switch the flux formula
+        e1, e2 = (s1 - 1.04) * 1e-7, (s2 - 1.04) * 1e-7
+        rhoR, pR = rhoL * (1.0 + e1), pL * (1.0 - e2)
+        mR = [m * (1.0 + e2) + (e1 if m == 0 else 0.0) for m in mL]
     elif kind == "super+":
         mL[0], mR[0] = s1, s2
     elif kind == "super-":
@@ -291,7 +296,7 @@ def _pair_labels(case):
     return sorted(out)
 
 
-REQUIRED_LABELS = ['flux_relations/kind:equal', 'flux_relations/kind:rest', 'flux_relations/kind:sonic', 'flux_relations/kind:mirror', 'flux_relations/kind:super+', 'flux_relations/kind:super-', 'flux_relations/ratio>1e3', 'flux_relations/upwind+', 'flux_relations/upwind-', 'flux_relations/face:x', 'flux_relations/face:y', 'flux_relations/antisymmetric']
+REQUIRED_LABELS = ['flux_relations/kind:near', 'flux_relations/kind:equal', 'flux_relations/kind:rest', 'flux_relations/kind:sonic', 'flux_relations/kind:mirror', 'flux_relations/kind:super+', 'flux_relations/kind:super-', 'flux_relations/ratio>1e3', 'flux_relations/upwind+', 'flux_relations/upwind-', 'flux_relations/face:x', 'flux_relations/face:y', 'flux_relations/antisymmetric']
 
 SUBCHECKS = [
     SubCheck("flux_relations", check, strategy=strat, examples={"quick": 700, "thorough": 5000}, shards={"quick": 4, "thorough": 16}),
